@@ -57,6 +57,17 @@ def generate(rng, tier, focus):
                     post = [["emit", 0, n(rng.choice([3, 4, 5]))] for _ in range(rng.randrange(1, 4))] + [["emit", 0, rng.choice([C, e(4)])]]
                     acts = pre + [sub(0, p, (i, r))] + post
                     cases.append((scn(subjects=[kind], handles=2, script_=acts), {"k": "subject-" + r[0] + ("-" + str(r[2][0]) if r[0] == "emit" else "")}))
+    # a subscriber that feeds the operator's own (hand-driven) source from inside its callback: operators that hold a state lock
+    # across their sink (scan, group_by, window, buffer) against those that do not
+    for _ in range(40 if thorough else 8):
+        for nm, ps in [("scan", [rng.choice(scen.FN2)]), ("map", [["add", 1]]), ("filter", [["true"]]), ("distinct_until_changed", []),
+                       ("group_by", [2]), ("window_with_count", [2]), ("buffer_with_count", [2]), ("take", [3]), ("skip", [1]), ("start_with", [[8]][0])]:
+            i = rng.randrange(0, 3)
+            p = ["op", nm, ps, ["manual", 0]]
+            if rng.random() < 0.3:
+                p = scen.rand_chain(rng, p, 1)
+            acts = [sub(0, p, (i, ["push", 0, n(rng.choice([5, 6]))]))] + [["push", 0, n(rng.choice([1, 2, 3]))] for _ in range(rng.randrange(1, 4))] + [["push", 0, C]]
+            cases.append((scn(handles=1, script_=acts), {"k": "feedback-" + nm}))
     # connectables over a hot source
     for _ in range(60 if thorough else 12):
         for ck in ["publish", "refcount", "replay"]:
